@@ -515,6 +515,9 @@ def run(ctx, sm, facts):
     ctx.rule('C18.b', 'createNets: exactly one net per registered sink pin, from the driver of its wire')
     ctx.rule('C18.c', 'net splitting re-attaches driver pin and reader pin with the same wire; chain state per wire')
     ctx.rule('C18.d', 'markers only written into cells known to be free')
+    ctx.rule('C18.g', 'instance isolation: a second schematic in the process does not see the first (no class-level container / mutable default / memoised method in the schematic files)')
+    from ..leafrules import shared_instance_state
+    shared_instance_state(ctx, facts, 'C18.g', [REL, 'py4hw/schematic_symbols.py'])
     sc = facts.cls('Schematic', REL, required=False)
     if sc is None:
         ctx.error('C18', 'anchor class Schematic not found')
